@@ -1,2 +1,5 @@
 import AgdbRaft.Props.C28
+#print axioms Raft.C28_commit_monotone
+#print axioms Raft.C28_committed_stable
+#print axioms Raft.C28_commit_monotone_step
 #print axioms Raft.C28_state_machine_safety_counterexample
